@@ -148,6 +148,151 @@ def r_teval_passthrough(rep, f):
                       "(a decreasing t_eval of a backward run must stay decreasing)" % why, cands[0].get("sp"))
 
 
+def r_teval_shortcut(rep, f):
+    """early returns of solve_ivp (degenerate span, empty state) never reach the output handler: when t_eval is given, the
+    times they report are a selection of the requested times themselves (clone / iter / filter / copied / collect), never
+    values rebuilt from something else (x0 repeated, a counter, arithmetic on the request)"""
+    key = "R-TEVAL-SHORTCUT:solve_ivp"
+    b = f.bodies.get(SOLVE_IVP)
+    if b is None:
+        rep.inconc("R-TEVAL-SHORTCUT", key, "solve_ivp not found")
+        return
+    body = b["body"]
+    is_src = lambda z: z.get("k") == "Field" and (z.get("fdef") or "") == OPT + "t_eval"
+    SELECT = ("clone", "as_ref", "as_deref", "to_vec", "to_owned", "cloned", "copied", "into", "as_slice", "borrow", "iter", "into_iter",
+              "filter", "take_while", "skip_while", "collect", "unwrap", "expect")
+    structs = tast.find(body, lambda z: z.get("k") == "Struct" and (z.get("def") or "").endswith("solution::Solution"))
+    if not structs:
+        rep.inconc("R-TEVAL-SHORTCUT", key, "no Solution literal found in solve_ivp")
+        return
+
+    def unwrap(e):
+        while e is not None and e.get("k") in ("AddrOf", "Cast", "DropTemps", "Paren") or (e is not None and e.get("k") == "Unary" and e.get("op") == "Deref"):
+            e = e["e"]
+        return e
+
+    def tail_of(e):
+        e = unwrap(e)
+        while e is not None and e.get("k") == "Block":
+            e = unwrap(e.get("tail") or e.get("expr"))
+        return e
+
+    def leaves(e, some, binds, idx=None, depth=0):
+        """(leaf expression, inside the `t_eval is Some` branch?, names bound to the requested times)"""
+        e = tail_of(e)
+        if e is None or depth > 14:
+            yield e, some, binds
+            return
+        k = e.get("k")
+        if k == "If":
+            c = e["cond"]
+            if c.get("k") == "LetExpr" and tast.contains(c["init"], is_src) and (c["pat"].get("ctor_of") or c["pat"].get("def") or "").endswith("Some"):
+                ids = tuple(q["id"] for q in tast.find(c["pat"], lambda q: q.get("k") == "PBind"))
+                yield from leaves(e["then"], True, binds + ids, idx, depth + 1)
+                if e.get("else") is not None:
+                    yield from leaves(e["else"], False, binds, idx, depth + 1)
+                return
+            yield from leaves(e["then"], some, binds, idx, depth + 1)
+            if e.get("else") is not None:
+                yield from leaves(e["else"], some, binds, idx, depth + 1)
+            return
+        if k == "Match":
+            on_src = tast.contains(e["scrut"], is_src)
+            for arm in e.get("arms", []):
+                pat = arm["pat"]
+                if on_src and (pat.get("ctor_of") or pat.get("def") or "").endswith("Some"):
+                    ids = tuple(q["id"] for q in tast.find(pat, lambda q: q.get("k") == "PBind"))
+                    yield from leaves(arm["body"], True, binds + ids, idx, depth + 1)
+                else:
+                    yield from leaves(arm["body"], False if on_src else some, binds, idx, depth + 1)
+            return
+        if k == "Tuple" and idx is not None:
+            yield from leaves(e["elems"][idx], some, binds, None, depth + 1)
+            return
+        if k == "Path" and e.get("res") == "local" and e.get("id") not in binds:
+            lets = tast.find(body, lambda z: z.get("k") == "Let" and z.get("init") is not None and tast.contains(z["pat"], lambda q: q.get("k") == "PBind" and q.get("id") == e.get("id")))
+            if len(lets) == 1:
+                pat = lets[0]["pat"]
+                if pat.get("k") == "PBind":
+                    yield from leaves(lets[0]["init"], some, binds, idx, depth + 1)
+                    return
+                if pat.get("k") == "PTuple":
+                    pos = [i for i, q in enumerate(pat["pats"]) if q.get("k") == "PBind" and q.get("id") == e.get("id")]
+                    if pos:
+                        yield from leaves(lets[0]["init"], some, binds, pos[0], depth + 1)
+                        return
+        yield e, some, binds
+
+    def selection(e, binds, depth=0):
+        e = unwrap(e)
+        if e is None or depth > 12:
+            return False
+        if is_src(e) or (e.get("k") == "Path" and e.get("id") in binds):
+            return True
+        if e.get("k") == "MethodCall" and e.get("name") in SELECT:
+            return selection(e["recv"], binds, depth + 1)
+        if e.get("k") == "Path" and e.get("res") == "local":
+            # a vector filled only by pushing elements met while iterating over (a selection of) the requested times
+            lets = tast.find(body, lambda z: z.get("k") == "Let" and z["pat"].get("k") == "PBind" and z["pat"].get("id") == e.get("id"))
+            if len(lets) != 1:
+                return False
+            init = lets[0].get("init")
+            if init is not None and not (init.get("k") == "Call" and (init.get("def") or "").endswith(("Vec::<T>::new", "Vec::<T>::with_capacity", "Vec::new", "Vec::with_capacity"))):
+                return selection(init, binds, depth + 1)
+            muts = tast.find(body, lambda z: z.get("k") == "MethodCall" and unwrap(z["recv"]) is not None and unwrap(z["recv"]).get("k") == "Path" and unwrap(z["recv"]).get("id") == e.get("id")
+                             and z.get("name") not in ("len", "is_empty", "iter", "clone", "last", "first", "capacity", "reserve", "as_slice"))
+            if not muts or tast.contains(body, lambda z: z.get("k") in ("Assign", "AssignOp") and tast.contains(z["l"], lambda q: q.get("k") == "Path" and q.get("id") == e.get("id"))):
+                return False
+            for m_ in muts:
+                if m_.get("name") != "push" or len(m_["args"]) != 1:
+                    return False
+                a_ = unwrap(m_["args"][0])
+                if a_ is None or a_.get("k") != "Path":
+                    return False
+                fors = [fo for fo in tast.find(body, lambda z: z.get("k") == "For") if tast.contains(fo["pat"], lambda q: q.get("k") == "PBind" and q.get("id") == a_.get("id")) and tast.contains(fo["body"], lambda q: q is m_)]
+                if len(fors) != 1 or not selection(fors[0]["iter"], binds, depth + 1):
+                    return False
+            return True
+        return False
+
+    def defaulted(e, binds):
+        """Option<selection>.unwrap_or*(default): the requested times when given, the default otherwise"""
+        e = unwrap(e)
+        return e is not None and e.get("k") == "MethodCall" and e.get("name") in ("unwrap_or_else", "unwrap_or", "unwrap_or_default") and selection(e["recv"], binds) \
+            and not any(tast.contains(a_, is_src) for a_ in e["args"])
+    n_sel = n_other = 0
+    bad = []
+    for st in structs:
+        fl = next((x for x in st["fields"] if x.get("name") == "t"), None)
+        if fl is None:
+            continue
+        for leaf, some, binds in leaves(fl["e"], False, ()):
+            if leaf is None:
+                continue
+            from_handler = tast.contains(leaf, lambda z: (z.get("k") == "Field" and (z.get("fdef") or "").startswith("solve::solout::DefaultSolOut")) or
+                                         (z.get("k") in ("Call", "MethodCall") and "DefaultSolOut" in (z.get("def") or "")))
+            if from_handler:
+                n_other += 1
+                continue
+            if not some:
+                if defaulted(leaf, binds):
+                    n_sel += 1
+                    continue
+                if tast.contains(leaf, is_src):
+                    bad.append((leaf, "reads t_eval outside an `if let Some(..) = options.t_eval` test"))
+                n_other += 1
+                continue
+            if selection(leaf, binds):
+                n_sel += 1
+            else:
+                bad.append((leaf, "is not a selection of the requested times"))
+    for leaf, why in bad:
+        rep.violation("R-TEVAL-SHORTCUT", key + ":" + tast.render(leaf)[:50], "a return of solve_ivp that bypasses the output handler reports, with t_eval given, `%s`, which %s: the reported times "
+                      "are then not bit-for-bit the requested ones" % (tast.render(leaf)[:90], why), leaf.get("sp"))
+    if not bad:
+        rep.ok("R-TEVAL-SHORTCUT", key, "%d Solution literal(s): %d shortcut time vector(s) under t_eval are selections of t_eval itself; %d come from the handler or from the no-t_eval branch" % (len(structs), n_sel, n_other))
+
+
 DENY = ("std::time::", "std::thread::", "std::sync::", "std::env::", "std::fs::", "std::collections::hash", "std::collections::HashMap",
         "std::collections::HashSet", "rand::", "std::process::", "std::net::", "std::io::stdin", "std::hash::RandomState",
         "std::ptr::", "std::mem::transmute", "std::cell::", "std::rc::")
